@@ -16,12 +16,13 @@ PyTorchShortTimeFourierTransformFrameComputer.from_stft_frame_computer
                                       (so the imaginary part of complex banks is kept)
 """
 import ast
+import os
 
 import z3
 
 from pyvc import api, symex, extract
 from pyvc.api import I, R, SpecFn, Z, Zb, Arr, Opaque, simp, to_real, Outside
-from pyvc.symex import Contract, Obligation
+from pyvc.symex import Contract, Obligation, LoopSpec
 from pyvc.check import UnitResult
 
 MOD = "torch"
@@ -372,3 +373,366 @@ def generate(prop, which):
     from contracts.registry import run_contract
     fn, mk, setup = UNITS[which]
     return run_contract(prop, (MOD, fn), mk(), [("", setup)], name="torch_" + which, fname=fn)
+
+
+# ------------------------------------------------------------------------------------------ the STFT module: __init__ and forward
+# from_stft_frame_computer (above) hands the computer's parameters to the constructor; the functional port (contracts/torch_stft.py) is
+# proved against the NumPy specification. The two links in between are under contract here: the constructor stores every argument under
+# the attribute forward() reads (and rejects what the functional's precondition excludes), and forward() passes exactly those attributes,
+# in the functional's parameter order, with the caller's signal - so module(x) is the functional on the computer's parameters.
+STFT_MODULE = "PyTorchShortTimeFourierTransformFrameComputer"
+# functional parameter -> module attribute it must receive in forward()
+FORWARD_WANT = ["signal", "filters", "offsets", "frame_length", "frame_shift", "centered", "window", "dft_size", "use_log", "use_power",
+                "include_energy", "kaldi_shift", "is_real"]
+
+
+def setup_forward(ex, st):
+    fields = {k: Opaque("ATTR_" + k, "attr") for k in FORWARD_WANT[1:]}
+    api.mk_obj(st, "self", STFT_MODULE, fields)
+    st.env["signal"] = Opaque("SIGNAL", "tensor")
+    st.ghost["calls"] = []
+    ex.ctx = dict(fields=fields)
+
+
+def h_functional(ex, st, args, kwargs, node, ev):
+    st.ghost["calls"] = st.ghost["calls"] + [(tuple(args), dict(kwargs))]
+    return Opaque("FUNCTIONAL_RESULT", "tensor")
+
+
+def h_list_of_parameters(ex, st, args, kwargs, node, ev):
+    # list(self.filters): the ParameterList's entries in order
+    if len(args) == 1 and isinstance(args[0], Opaque) and args[0].term == "ATTR_filters":
+        return Opaque("LIST_OF_ATTR_filters", "list")
+    raise Outside("list() of something other than the module's filters")
+
+
+def contract_forward():
+    def call_ok(ev, res):
+        calls = ev.st.ghost["calls"]
+        if len(calls) != 1 or not (isinstance(res, Opaque) and res.term == "FUNCTIONAL_RESULT"):
+            return False
+        args, kw = calls[0]
+        names = FORWARD_WANT
+        got = dict(zip(names, args))
+        for k, v in kw.items():
+            if k in got or k not in names:
+                return False
+            got[k] = v
+        if set(got) != set(names) or len(args) > len(names):
+            return False
+        for k in names:
+            v = got[k]
+            want = "SIGNAL" if k == "signal" else ("LIST_OF_ATTR_filters" if k == "filters" else "ATTR_" + k)
+            if not (isinstance(v, Opaque) and v.term == want):
+                return False
+        return True
+
+    def unchanged(ev):
+        f = ex_fields(ev)
+        return all(ev.st.fields.get(("self", k)) is v for k, v in f.items()) and sum(1 for k in ev.st.fields if k[0] == "self") == len(f)
+
+    def ex_fields(ev):
+        return ev.ex.ctx["fields"]
+
+    return Contract(
+        target=f"{MOD}:{STFT_MODULE}.forward", uses=["A-PYSEM", "A-TORCH"],
+        consts={"CALL_OK": SpecFn(call_ok), "UNCHANGED": SpecFn(unchanged)},
+        handlers={"pytorch_stft_frame_computer": h_functional, "list": h_list_of_parameters},
+        ensures=[("one_call_of_the_functional_on_the_signal_and_the_modules_own_attributes_in_parameter_order", "CALL_OK(result)"),
+                 ("module_state_untouched", "UNCHANGED()")],
+    )
+
+
+def unit_stft_module(prop):
+    def unit(tier, known):
+        from contracts.registry import run_contract
+        u = run_contract(prop, (MOD, f"{STFT_MODULE}.forward"), contract_forward(), [("", setup_forward)], name="stft_module", fname=f"{STFT_MODULE}.forward",
+                         to_case=to_case_module, replay_module="rtc.c14")
+        # the functional's parameter list itself (order and names) - what CALL_OK matches against - is read from the source
+        try:
+            f = extract.get_function(MOD, "pytorch_stft_frame_computer")
+            params = [a.arg for a in f.node.args.args]
+            ok = params[:13] == ["sig"] + FORWARD_WANT[1:] and params[13:] == ["eps"]
+        except KeyError:
+            ok = False
+        o = Obligation(f"{prop}.{STFT_MODULE}.forward.functional_parameter_order_is_the_one_matched", [], z3.BoolVal(bool(ok)), "spec", None)
+        u.obligations.append(o)
+        return u
+    unit.__name__ = "stft_module"
+    return unit
+
+
+def to_case_module(ob):
+    import itertools
+    from rtc import c14
+    try:
+        cases = list(itertools.islice(c14._enumerate("quick", 0), 700))
+    except Exception:
+        return None
+    cases.sort(key=lambda c: ("check" in c) is False)
+    return cases[:500]
+
+
+# ---- PyTorchShortTimeFourierTransformFrameComputer.__init__ ----------------------------------------------------------------------------
+# arguments: a symbolic sequence of n >= 0 (offset, filter) pairs, symbolic integers / flags, a window that is None or has a symbolic shape.
+# Proved: ValueError iff some filter is not a vector, some offset is negative, frame_length <= 0, frame_shift <= 0, the frame style is
+# unknown, the window's shape is not (frame_length,), or a given dft_size is shorter than the frame; otherwise every argument is stored
+# under the attribute forward() reads - offsets and filters as the argument's columns IN ORDER (one entry per pair), centered iff the style
+# is "centered", the default DFT size 2 ** ceil(log2(frame_length)) - and nothing is stored before the checks.
+OFFS = z3.Function("arg_offset", z3.IntSort(), z3.IntSort())
+NDIM = z3.Function("arg_filter_ndim", z3.IntSort(), z3.IntSort())
+
+
+class FilterVal:
+    """the filter tensor of pair k of the constructor's argument"""
+
+    def __init__(self, k):
+        self.k = k
+
+    def sym_getattr(self, attr, ev, node):
+        if attr == "ndim":
+            return NDIM(Z(self.k))
+        raise Outside(f"filter attribute .{attr}")
+
+
+class WindowVal:
+    def __init__(self):
+        self.len0 = z3.Int("window_len")
+        self.rank1 = z3.Bool("window_is_a_vector")
+
+    def sym_getattr(self, attr, ev, node):
+        if attr == "shape":
+            return ShapeVal(self)
+        raise Outside(f"window attribute .{attr}")
+
+
+class ShapeVal:
+    def __init__(self, w):
+        self.w = w
+
+    def sym_compare(self, op, other, ev, node):
+        if isinstance(other, tuple) and len(other) == 1 and isinstance(op, (ast.NotEq, ast.Eq)):
+            same = z3.And(self.w.rank1, self.w.len0 == Z(other[0]))
+            return z3.Not(same) if isinstance(op, ast.NotEq) else same
+        raise Outside("window shape compared with something other than a 1-tuple")
+
+
+def setup_module_init(window_given, dft_given):
+    def setup(ex, st):
+        n = api.sym("npairs")
+        st.assume(n >= 0)
+        api.mk_obj(st, "self", STFT_MODULE, {})
+        seq = api.SeqVal(n, lambda j: (OFFS(Z(j)), FilterVal(Z(j))))
+        win = WindowVal() if window_given else None
+        st.env.update({"offsets_and_truncated_filters": seq, "frame_length": api.sym("frame_length"), "frame_shift": api.sym("frame_shift"),
+                       "frame_style": api.sym("frame_style", "str"), "window": win, "dft_size": api.sym("dft_size") if dft_given else None,
+                       "use_log": api.sym("use_log", "bool"), "use_power": api.sym("use_power", "bool"), "include_energy": api.sym("include_energy", "bool"),
+                       "kaldi_shift": api.sym("kaldi_shift", "bool"), "is_real": api.sym("is_real", "bool")})
+        st.ghost.update(app_offsets=0, app_filters=0, checked=0, super_init=0, registered=[])
+        ex.ctx = dict(n=n, win=win, seq=seq, dft_given=dft_given, window_given=window_given)
+    return setup
+
+
+class GhostList:
+    """the list `offsets` / `filters` while it is being collected: its CONTENT lives in ghost state (entry k is pinned down by the
+    obligations of the k-th append); any use other than append / the two final conversions leaves the subset (a concrete Python list
+    here would make `len(filters)` evaluate to 0)"""
+
+    def __init__(self, name):
+        self.name = name
+
+    def sym_getattr(self, attr, ev, node):
+        if attr == "append":
+            return symex.PyCallable(lambda ev2, a, k, n2: _ghost_append(ev2.ex, ev2.st, self, a[0], n2))
+        raise Outside(f"list method .{attr} on a collected list")
+
+
+def _ghost_append(ex, st, lst, v, node):
+    lbl = f"L{node.lineno - ex.fx.lineno}"
+    name = lst.name
+    if "__zi" not in st.env:
+        raise Outside("append outside the collecting loop")
+    i = Z(st.env["__zi"])
+    ex.oblige(st, Z(st.ghost["app_" + name]) == i, f"{name}.one_entry_per_pair_in_order.{lbl}", "spec", node.lineno)
+    st.ghost["app_" + name] = simp(i + 1)
+    if name == "offsets":
+        ex.oblige(st, (Z(v) == OFFS(i)) if symex.is_z3(v) or isinstance(v, int) else z3.BoolVal(False), f"offsets.entry_is_the_pairs_offset.{lbl}", "spec", node.lineno)
+    else:
+        ok = isinstance(v, FilterVal)
+        ex.oblige(st, (Z(v.k) == i) if ok else z3.BoolVal(False), f"filters.entry_is_the_pairs_filter.{lbl}", "spec", node.lineno)
+    return None
+
+
+def _to_ghost(name):
+    def conv(st, v):
+        if isinstance(v, list) and not v:
+            return GhostList(name)
+        raise Outside(f"{name} is not an empty list at the head of the collecting loop")
+    return conv
+
+
+def h_check_in(ex, st, args, kwargs, node, ev):
+    """callee (3 lines, torch.check_in): raises ValueError iff val not in the set"""
+    name, val, choices = args
+    if not isinstance(choices, frozenset):
+        raise Outside("check_in with a non-literal set")
+    cond = simp(z3.Not(z3.Or(*[val == z3.StringVal(c) for c in sorted(choices)])))
+    s_r = st.copy()
+    s_r.pc.append(cond)
+    if ex.feasible(s_r):
+        ex._end("raise", s_r, "ValueError")
+    st.pc.append(z3.Not(cond))
+    return None
+
+
+def h_init_compare(ex, st, op, a, b, node, ev):
+    if isinstance(a, ShapeVal):
+        return a.sym_compare(op, b, ev, node)
+    return NotImplemented
+
+
+POW2CEIL = z3.Function("pow2_ceil_log2", z3.IntSort(), z3.IntSort())  # 2 ** ceil(log2(x)), x >= 1
+
+
+def h_math_log(ex, st, args, kwargs, node, ev):
+    if len(args) == 2 and args[1] == 2:
+        return ("log2", args[0])
+    raise Outside("math.log in another base")
+
+
+def h_math_ceil(ex, st, args, kwargs, node, ev):
+    (a,) = args
+    if isinstance(a, tuple) and a and a[0] == "log2":
+        return ("ceil_log2", a[1])
+    raise Outside("math.ceil of something other than log2")
+
+
+def h_init_binop(ex, st, op, a, b, node):
+    if isinstance(op, ast.Pow) and a == 2 and isinstance(b, tuple) and b and b[0] == "ceil_log2":
+        ex.oblige(st, Z(b[1]) >= 1, f"log_of_positive.L{node.lineno - ex.fx.lineno}", "wd", node.lineno)
+        ex.assumption_ids.add("A-MATH")
+        return POW2CEIL(Z(b[1]))
+    return NotImplemented
+
+
+def h_tuple_of_offsets(ex, st, args, kwargs, node, ev):
+    # tuple(offsets): the collected list (its entries are pinned down, one by one and in order, by the append obligations)
+    if len(args) == 1 and isinstance(args[0], GhostList) and args[0].name == "offsets":
+        return Opaque(("tuple_of", "offsets"), "tuple")
+    raise Outside("tuple() of something other than the collected offsets")
+
+
+def h_parameter_list(ex, st, args, kwargs, node, ev):
+    (lst,) = args
+    if not (isinstance(lst, GhostList) and lst.name == "filters"):
+        raise Outside("ParameterList of something other than the collected filters")
+    return Opaque(("ParameterList", "filters", st.ghost["app_filters"]), "plist")
+
+
+def h_parameter(ex, st, args, kwargs, node, ev):
+    (w,) = args
+    return Opaque(("Parameter", id(w)), "param") if not isinstance(w, WindowVal) else ParamOf(w)
+
+
+class ParamOf:
+    def __init__(self, w):
+        self.w = w
+
+
+def h_register(ex, st, o, args, kwargs, node, ev):
+    st.ghost["registered"] = st.ghost["registered"] + [tuple(args)]
+    if len(args) == 2 and args[0] == "window" and args[1] is None:
+        st.fields[("self", "window")] = None
+    return None
+
+
+def h_super_init(ex, st, o, args, kwargs, node, ev):
+    st.ghost["super_init"] = st.ghost["super_init"] + 1
+    return None
+
+
+def contract_module_init(window_given, dft_given):
+    def bad_pair(ev):
+        k = z3.Int("bad_k")
+        n = ev.ex.ctx["n"]
+        return z3.Exists([k], z3.And(k >= 0, k < n, z3.Or(NDIM(k) != 1, OFFS(k) < 0)))
+
+    def stored(ev):
+        f = ev.st.fields
+        e = ev.ex.entry.env
+        n = ev.ex.ctx["n"]
+        g = lambda k: f.get(("self", k))
+        conj = []
+
+        def same(k, v):
+            a = g(k)
+            if a is None and v is not None:
+                return z3.BoolVal(False)
+            if isinstance(v, (z3.ExprRef,)):
+                return (Zb(a) == v) if z3.is_bool(v) else (Z(a) == v)
+            return z3.BoolVal(a is v)
+        for k in ("frame_length", "frame_shift", "use_log", "use_power", "include_energy", "kaldi_shift", "is_real"):
+            conj.append(same(k, e[k]))
+        conj.append(Zb(g("centered")) == (e["frame_style"] == z3.StringVal("centered")) if g("centered") is not None else z3.BoolVal(False))
+        if ev.ex.ctx["dft_given"]:
+            conj.append(same("dft_size", e["dft_size"]))
+        else:
+            conj.append(Z(g("dft_size")) == POW2CEIL(e["frame_length"]) if g("dft_size") is not None else z3.BoolVal(False))
+        offs = g("offsets")
+        kk = z3.Int("st_k")
+        if isinstance(offs, api.SeqVal):
+            conj.append(z3.And(Z(offs.n) == n, z3.ForAll([kk], z3.Implies(z3.And(kk >= 0, kk < n), Z(offs.getter(kk)) == OFFS(kk)))))
+        else:
+            conj.append(z3.BoolVal(isinstance(offs, Opaque) and offs.term == ("tuple_of", "offsets")) if offs is not None else z3.BoolVal(False))
+            conj.append(Z(ev.st.ghost["app_offsets"]) == n)
+        fl = g("filters")
+        conj.append(z3.BoolVal(isinstance(fl, Opaque) and isinstance(fl.term, tuple) and fl.term[:2] == ("ParameterList", "filters")))
+        conj.append(Z(ev.st.ghost["app_filters"]) == n)
+        w = g("window")
+        if ev.ex.ctx["window_given"]:
+            conj.append(z3.BoolVal(isinstance(w, ParamOf) and w.w is ev.ex.ctx["win"]))
+        else:
+            conj.append(z3.BoolVal(w is None and ("window", None) in ev.st.ghost["registered"]))
+        conj.append(z3.BoolVal(ev.st.ghost["super_init"] == 1))
+        if os.environ.get("VERIF_DEBUG_STORED"):
+            print("STORED conjuncts:", [str(c)[:80] for c in conj])
+        return z3.And(*conj)
+
+    conds = ["BAD_PAIR()", "frame_length <= 0", "frame_shift <= 0", "not (frame_style == 'causal' or frame_style == 'centered')"]
+    if window_given:
+        conds.append("WINDOW_SHAPE_WRONG()")
+    if dft_given:
+        conds.append("dft_size < frame_length")
+    c = Contract(
+        target=f"{MOD}:{STFT_MODULE}.__init__", uses=["A-PYSEM", "A-TORCH", "A-MATH"],
+        consts={"BAD_PAIR": SpecFn(bad_pair), "STORED": SpecFn(stored),
+                "WINDOW_SHAPE_WRONG": SpecFn(lambda ev: z3.Not(z3.And(ev.ex.ctx["win"].rank1, ev.ex.ctx["win"].len0 == Z(ev.ex.entry.env["frame_length"])))),
+                "ISLIST": SpecFn(lambda ev, a: isinstance(a, GhostList)),
+                "SO_FAR": SpecFn(lambda ev: z3.And(Z(ev.st.ghost["app_offsets"]) == Z(ev.st.env["__zi"]), Z(ev.st.ghost["app_filters"]) == Z(ev.st.env["__zi"]))),
+                "GOOD_BEFORE": SpecFn(lambda ev: (lambda k: z3.ForAll([k], z3.Implies(z3.And(k >= 0, k < Z(ev.st.env["__zi"])), z3.And(NDIM(k) == 1, OFFS(k) >= 0))))(z3.Int("gb_k")))},
+        handlers={"check_positive": h_check_positive, "check_in": h_check_in, "super": h_super, "opaque.__init__": h_super_init,
+                  "tuple": h_tuple_of_offsets, "compare": h_init_compare, "math.log": h_math_log, "math.ceil": h_math_ceil, "binop": h_init_binop,
+                  "torch.nn.ParameterList": h_parameter_list, "torch.nn.Parameter": h_parameter, "self.register_parameter": h_register},
+        loops={0: LoopSpec(kind="for", modifies_ghost=["app_offsets", "app_filters", "checked"], convert={"offsets": _to_ghost("offsets"), "filters": _to_ghost("filters")}, invariant=[
+            ("range", "0 <= __zi <= len(offsets_and_truncated_filters)"), ("lists", "ISLIST(offsets) and ISLIST(filters)"),
+            ("one_entry_per_pair_so_far", "SO_FAR()"), ("pairs_so_far_are_acceptable", "GOOD_BEFORE()")])},
+        raises={"ValueError": " or ".join(f"({c})" for c in conds)},
+        ensures=[("every_argument_stored_under_the_attribute_forward_reads", "STORED()")],
+    )
+    return c
+
+
+def generate_module_init(prop, wg, dg):
+    from contracts.registry import run_contract
+    return run_contract(prop, (MOD, f"{STFT_MODULE}.__init__"), contract_module_init(wg, dg),
+                        [(("window" if wg else "no_window") + "|" + ("dft_given" if dg else "dft_default"), setup_module_init(wg, dg))],
+                        name="stft_module_init", fname=f"{STFT_MODULE}.__init__")
+
+
+def unit_stft_module_init(prop):
+    def unit(tier, known):
+        from contracts.registry import run_parallel
+        jobs = [("contracts.torch_wrappers", "generate_module_init", (prop, wg, dg)) for wg in (False, True) for dg in (False, True)]
+        return run_parallel("stft_module_init", jobs, to_case=to_case_module, replay_module="rtc.c14")
+    unit.__name__ = "stft_module_init"
+    return unit
